@@ -258,6 +258,11 @@ class Outcome:
     def violation(self, signature, what, replay, no_input=False):
         self.violations.append({'signature': signature, 'what': what, 'replay': replay, 'no_input': no_input})
 
+    def has_unlisted_input(self):
+        """some violation with a concrete failing input that known_findings.json does not list"""
+        sigs = {f['signature'] for f in load_known().get('findings', []) if f.get('property') == self.prop}
+        return any(not v['no_input'] and v['signature'] not in sigs for v in self.violations)
+
     def finish(self):
         known = load_known()
         sigs = {f['signature']: f for f in known.get('findings', []) if f.get('property') == self.prop}
